@@ -16,10 +16,15 @@ func init() {
 			c.Add(&Job{Label: "DoLint/format=" + f, Pkg: zlintMod + "/cmd/zlint", Func: "VerifC15DoLint", MustCover: cov, NoReplay: true,
 				Tune: func(cf *Config) { cf.CLIEnv = true; cf.StrParams["c15.format"] = f; cf.AutoUF = true }})
 		}
+		c.Add(&Job{Pkg: zlintMod + "/cmd/zlint", Func: "VerifC15SetLints", MustCover: []string{"unknown source", "rejected selection", "no selection", "selection"}, NoReplay: true,
+			Tune: func(cf *Config) { cf.CLIEnv = true; cf.AutoUF = true; cf.Unwind = 2000 }})
 		k := 3
 		if !c.Quick() {
 			k = 4
 		}
 		c.Add(&Job{Pkg: zlintMod + "/formattedoutput", Func: "VerifC15Counts", MustCover: []string{"summary"}, Tune: func(cf *Config) { cf.Bounds["param:c15.k"] = k }})
+		// history: an earlier table (one result of arbitrary status, either flag) built in the same process
+		c.Add(&Job{Label: "VerifC15Counts/after an earlier table", Pkg: zlintMod + "/formattedoutput", Func: "VerifC15Counts", MustCover: []string{"summary", "after an earlier table"},
+			Tune: func(cf *Config) { cf.Bounds["param:c15.k"] = k - 1; cf.Bounds["param:c15.hist"] = 1 }})
 	}
 }
